@@ -1347,6 +1347,9 @@ func driveC04(c *h.Ctx) error {
 		g.r = c.Rng.Fork(uint64(500000 + i))
 		c04CaseSkip(c, g, g.tree(4, i%2 == 0), i)
 	}
+	// (c) typed KMIP messages, (d) OASIS vectors (oracle on the implementation only)
+	c04Messages(c, g)
+	c04Vectors(c, g)
 	return c04WriteCases(c, g, t)
 }
 
@@ -1398,6 +1401,14 @@ func c04Replay(c *h.Ctx, g *c04Gen, t *c04Tables) error {
 		}
 		g.r = h.NewRand(uint64(m["rng"].(float64)))
 		c04CaseSkip(c, g, &it, -1)
+	case "c":
+		if err := c04ReplayMessage(c, m); err != nil {
+			return err
+		}
+	case "d":
+		if err := c04ReplayVector(c, g, m); err != nil {
+			return err
+		}
 	default:
 		return fmt.Errorf("unknown case part %v", m["part"])
 	}
